@@ -73,7 +73,7 @@ def apply_edit(text: str, old: str, new: str, count: int = 1) -> Optional[str]:
     return out
 
 
-def make_root(src_root: str, edits) -> Optional[str]:
+def make_root(src_root: str, edits, allow_empty: bool = True) -> Optional[str]:
     """Copy the package sources into a fresh scratch root and apply edits. None if inapplicable."""
     tmp = tempfile.mkdtemp(prefix="sa_variant_")
     try:
@@ -190,6 +190,54 @@ def _judge(args):
         return vid, prop, "false-alarm", (lines[0][:300] if lines else f"exit {rc}")
 
 
+def _judge_seed(args):
+    """An independent seeded change (seeded/<name>/patch.diff) applied to a scratch copy must be reported."""
+    name, prop, src_root, patch_path = args
+    import subprocess
+
+    from sa.check import run_property
+
+    root = make_root(src_root, [])
+    if root is None:
+        return name, prop, "inapplicable", "no scratch copy"
+    try:
+        r = subprocess.run(["patch", "-p1", "-s", "-d", root, "-i", patch_path], capture_output=True, text=True)
+        if r.returncode != 0:
+            return name, prop, "inapplicable", "patch does not apply to the current tree"
+        buf = io.StringIO()
+        with contextlib.redirect_stdout(buf), contextlib.redirect_stderr(buf):
+            rc = run_property(prop, root, "quick", 0, write=False)
+        out = buf.getvalue()
+    finally:
+        shutil.rmtree(root, ignore_errors=True)
+    if rc == 1:
+        viol = [l for l in out.splitlines() if l.startswith("VIOLATED:")]
+        return name, prop, "caught", (viol[0][:200] if viol else "")
+    if rc == 2:
+        return name, prop, "analysis-error", "exit 2"
+    return name, prop, "missed", "check exited 0 on a seeded change it used to report"
+
+
+def seeded_for(prop: str):
+    import json
+
+    base = os.path.join(os.path.dirname(HERE), "seeded")
+    out = []
+    if not os.path.isdir(base):
+        return out
+    for name in sorted(os.listdir(base)):
+        mp = os.path.join(base, name, "meta.json")
+        pp = os.path.join(base, name, "patch.diff")
+        if os.path.exists(mp) and os.path.exists(pp):
+            try:
+                meta = json.load(open(mp))
+            except Exception:
+                continue
+            if prop in meta.get("checks_fired", []):
+                out.append((name, pp))
+    return out
+
+
 def all_variants() -> List[V]:
     from sa import variant_defs
 
@@ -206,9 +254,11 @@ def run(prop: str, seed: int, root: str, coverage_out: dict, jobs: int = 16, onl
         files = v.file.split(",") if special else [v.file]
         tasks.append((v.vid, v.kind, prop, v.rules, root, [(f, v.old, v.new, v.count, special) for f in files]))
     results = []
-    if tasks:
-        with cf.ProcessPoolExecutor(max_workers=min(jobs, len(tasks))) as ex:
+    seed_tasks = [(f"seed:{name}", prop, root, pp) for name, pp in seeded_for(prop)] if only is None else []
+    if tasks or seed_tasks:
+        with cf.ProcessPoolExecutor(max_workers=min(jobs, len(tasks) + len(seed_tasks))) as ex:
             results = list(ex.map(_judge, tasks))
+            results += list(ex.map(_judge_seed, seed_tasks))
     bad = []
     tally = {}
     for vid, p, verdict, detail in results:
